@@ -38,6 +38,26 @@ CHECKS = {
              'several chunk sizes.',
         note='FileGenerator count clause deliberately weak (DESIGN 4.6). Files without a particle table are outside the '
              'domain. Trusted: TLC, driver projection.'),
+    'C06': dict(
+        spec='FuncSignal.tla', design='4.2',
+        text='FuncSignal.tla models a function-backed signal as its definition (grid + components with offset, buffers, '
+             'factor, product of delay/gain filters) plus the lazy cache, with each public operation clearing the cache '
+             'exactly where the code does; TLC checks NoStale, ReadIsEager and Independent over all interleavings of reads '
+             'with 12 operations up to depth 5 (2 objects); the level-4 graph and depth-16 simulations are executed on '
+             'FunctionSignal and on FullThermalNoise / AskaryanSignal shadows, every read compared with the spec value '
+             'and with a fresh copy.',
+        note='Filters restricted to integer-sample delays with integer gains (exact shift of the zero-padded FFT filter). '
+             'Ray tracer / ray path objects (LazyObj) are covered through the tracer drivers of C02/C18 when built; '
+             'until then the check decides the signal half of the property only.'),
+    'C09': dict(
+        spec='AntennaHits.tla', design='4.4',
+        text='AntennaHits.tla models the incremental caches behind all_waveforms / waveforms / is_hit, full_waveform over '
+             'arbitrary windows, clear(reset_noise) and the noise master generation; TLC checks CachesOrdered, OnePerSignal, '
+             'TriggeredAreExactlyThose, FullIsSuperposition, ClearIsInit, StaleOnlyByD9, NoiseMasterUntilReset exhaustively '
+             '(3 signals, depth 7) for antenna, system and noisy variants; graph cover + depth-18 simulations run on a '
+             'threshold Antenna, an AntennaSystem with delaying front end (two lead-in times) and noisy antennas.',
+        note='Open known finding D9 (query-receive(overlap)-query) is accepted only where the spec predicate Stale holds. '
+             'Noise is checked as consistency of interpretation, not by value.'),
 }
 
 NOT_APPLICABLE = {
